@@ -20,6 +20,23 @@ Proof.
   - apply orb_true_iff. destruct H as [->|H]; [left; apply ueqb_refl|right; now apply IH].
 Qed.
 
+(* ---- rows *)
+Lemma rget_rset_same k v r : rget k (rset k v r) = Some v.
+Proof. unfold rget. induction r as [|[k' v'] r IH]; simpl; [now rewrite ueqb_refl|]. destruct (ueqb k k') eqn:E; simpl; [now rewrite ueqb_refl|now rewrite E]. Qed.
+Lemma rget_rset_other k k' v r : ueqb k' k = false -> rget k' (rset k v r) = rget k' r.
+Proof.
+  intro H. unfold rget. induction r as [|[k2 v2] r IH]; simpl; [now rewrite H|].
+  destruct (ueqb k k2) eqn:E; simpl.
+  - apply ueqb_eq in E; subst. now rewrite H.
+  - destruct (ueqb k' k2); auto.
+Qed.
+Lemma rget_rdrop_other k x r : ueqb k x = false -> rget k (rdrop x r) = rget k r.
+Proof.
+  intro H. unfold rget. induction r as [|[a b] r IH]; simpl; auto. destruct (ueqb x a) eqn:E.
+  - apply ueqb_eq in E; subst. rewrite H. exact IH.
+  - simpl. destruct (ueqb k a); auto.
+Qed.
+
 (* the filter stage of _preprocess_data keeps exactly the rows without a null in a referenced column *)
 Definition kept (na refs : list ustr) (f : list rawrow) : frame :=
   filter (fun r => negb (row_has_null na refs r)) (map str_row f).
@@ -31,4 +48,61 @@ Proof.
   unfold row_has_null. rewrite existsb_exists. split.
   - intros (k & Hk & H). destruct (rget k r) as [v|] eqn:E; [|discriminate]. exists k, v. repeat split; auto. now apply mem_In.
   - intros (k & v & Hk & E & Hv). exists k. split; auto. rewrite E. now apply mem_In.
+Qed.
+
+(* ---- drop_duplicates and _preprocess_data as sets of rows *)
+Lemma row_eqb_eq a : forall b, row_eqb a b = true <-> a = b.
+Proof.
+  induction a as [|[k v] a IH]; intros [|[k' v'] b]; simpl; split; intro H; try discriminate; auto.
+  - apply andb_true_iff in H as [H H3]. apply andb_true_iff in H as [H1 H2].
+    apply ueqb_eq in H1, H2. apply IH in H3. congruence.
+  - injection H as -> -> ->. rewrite !ueqb_refl. simpl. now apply IH.
+Qed.
+Lemma row_mem_In r l : row_mem r l = true <-> In r l.
+Proof.
+  induction l as [|x l IH]; simpl; split; intro H; try discriminate; try tauto.
+  - apply orb_true_iff in H as [H|H]; [left; symmetry; now apply row_eqb_eq|right; now apply IH].
+  - apply orb_true_iff. destruct H as [->|H]; [left; now apply row_eqb_eq|right; now apply IH].
+Qed.
+Lemma drop_dups_aux_in l : forall seen x, In x (drop_dups_aux seen l) <-> In x l /\ row_mem x seen = false.
+Proof.
+  induction l as [|y l IH]; intros seen x; simpl; [tauto|].
+  destruct (row_mem y seen) eqn:E.
+  - rewrite IH. split; [intros [H1 H2]; auto|]. intros [[->|H1] H2]; [congruence|auto].
+  - simpl. rewrite IH. simpl. split.
+    + intros [->|[H1 H2]]; [auto|]. apply orb_false_iff in H2 as [_ H2]. auto.
+    + intros [[->|H1] H2]; [auto|]. destruct (row_eqb x y) eqn:E2; [apply row_eqb_eq in E2; subst; auto|]. right. split; auto; simpl; now rewrite ?E2.
+Qed.
+Lemma drop_duplicates_in l x : In x (drop_duplicates l) <-> In x l.
+Proof. unfold drop_duplicates. rewrite drop_dups_aux_in. simpl. tauto. Qed.
+(* the preprocessed frame of a union of row sets is the union of the preprocessed frames *)
+Lemma preprocess_app na refs f1 f2 r :
+  In r (preprocess na refs (f1 ++ f2)) <-> In r (preprocess na refs f1) \/ In r (preprocess na refs f2).
+Proof.
+  unfold preprocess. rewrite !drop_duplicates_in. rewrite filter_app, map_app, filter_app, map_app. apply in_app_iff.
+Qed.
+(* row order and duplicated rows do not matter *)
+Lemma preprocess_same_rows na refs f f' : (forall r, In r f <-> In r f') -> forall r, In r (preprocess na refs f) <-> In r (preprocess na refs f').
+Proof.
+  intros H r. unfold preprocess. rewrite !drop_duplicates_in, !in_map_iff.
+  split; intros (x & E & Hx); exists x; split; auto; apply filter_In in Hx as [Hx P]; apply filter_In; split; auto;
+    apply in_map_iff in Hx as (y & E2 & Hy); apply in_map_iff; exists y; split; auto; apply filter_In in Hy as [Hy Q]; apply filter_In; split; auto; now apply H.
+Qed.
+
+(* ---- C06: which rows reach term construction *)
+Lemma preprocess_in na refs f r :
+  In r (preprocess na refs f) <->
+  exists raw, In raw f /\ raw_has_null refs raw = false /\ row_has_null na refs (str_row raw) = false /\ r = null_to_text na (str_row raw).
+Proof.
+  unfold preprocess. rewrite drop_duplicates_in, in_map_iff. split.
+  - intros (x & <- & Hx). apply filter_In in Hx as [Hx P]. apply in_map_iff in Hx as (raw & <- & Hraw).
+    apply filter_In in Hraw as [Hraw Q]. apply negb_true_iff in P, Q. exists raw. auto.
+  - intros (raw & Hraw & Q & P & ->). exists (str_row raw). split; auto. apply filter_In. split; [|now rewrite P].
+    apply in_map. apply filter_In. split; auto. now rewrite Q.
+Qed.
+Lemma raw_has_null_iff refs raw : raw_has_null refs raw = true <-> exists k, In k refs /\ (assoc k raw = Some CNone \/ assoc k raw = Some CNaN).
+Proof.
+  unfold raw_has_null. rewrite existsb_exists. split.
+  - intros (k & Hk & H). exists k. split; auto. destruct (assoc k raw) as [[]|]; try discriminate; auto.
+  - intros (k & Hk & [H|H]); exists k; split; auto; now rewrite H.
 Qed.
